@@ -46,5 +46,145 @@ def flushesFrom (pat : UInt8 × UInt8) (last : UInt8) : List Bytes → List Bool
     element `i` is `true` iff the `i`-th write is followed by a `Flush()`. -/
 def flushes (pat : UInt8 × UInt8) (ws : List Bytes) : List Bool := flushesFrom pat 0 ws
 
+
+/-!
+  ## The client connection: a sequence of responses over one `bufio.Writer`
+
+  `proxyConn.writeResponse` (internal/martian/proxy_conn.go) runs once per response on a
+  keep-alive client connection:
+
+  ```go
+  switch {
+  case isHeaderOnlySpec(res):  err = writeHeaderOnlyResponse(p.brw.Writer, res)
+  default:
+      switch {
+      case isTextEventStream(res): w := newPatternFlushWriter(p.brw.Writer, p.brw.Writer, sseFlushPattern);   err = res.Write(w)
+      case shouldChunk(res):       w := newPatternFlushWriter(p.brw.Writer, p.brw.Writer, chunkFlushPattern); err = res.Write(w)
+      default:                     err = res.Write(p.brw)
+      }
+  }
+  ... err = p.brw.Flush()
+  ```
+
+  i.e. every response gets a FRESH `patternFlushWriter` (its own pattern, `last = 0`); the only state
+  shared by the responses of a connection is `p.brw.Writer`, a `bufio.Writer` of 4096 bytes that is
+  flushed at the end of every response.  `Conn` is that state; what the client can have received at
+  any moment is `Buf.delivered`.
+-/
+
+abbrev Pat := UInt8 × UInt8
+
+def ssePattern : Pat := (10, 10)
+def chunkPattern : Pat := (13, 10)
+
+/-- The writer `writeResponse` hands to `res.Write`: `none` = the `bufio.Writer` itself
+    (header-only responses and bodies of known length that are not event streams).
+    `minor` is `res.ProtoMinor` (the origin's version), `lengthKnown` is `res.ContentLength != -1`
+    (`shouldChunk`: HTTP/1.1, length unknown, not header-only). -/
+def choosePattern (headerOnly sse : Bool) (minor : Nat) (lengthKnown : Bool) : Option Pat :=
+  if headerOnly then none
+  else if sse then some ssePattern
+  else if minor == 1 && !lengthKnown then some chunkPattern
+  else none
+
+/-- `bufio.Writer`: `buffered` = `b.n`; `delivered` = bytes handed to the connection so far. -/
+structure Buf where
+  buffered : Nat
+  delivered : Nat
+deriving DecidableEq, Repr
+
+/-- `bufio.Writer.Write(p)` with `len(p) = n` (the connection accepts everything):
+    while the data does not fit: an empty buffer passes it on directly, otherwise the buffer is
+    topped up and flushed.  After one top-up the buffer is empty, so there are at most two rounds. -/
+def Buf.write (size : Nat) (b : Buf) (n : Nat) : Buf :=
+  let avail := size - b.buffered
+  if n ≤ avail then { b with buffered := b.buffered + n }
+  else if b.buffered = 0 then { b with delivered := b.delivered + n }
+  else
+    let rest := n - avail
+    if rest ≤ size then { buffered := rest, delivered := b.delivered + b.buffered + avail }
+    else { buffered := 0, delivered := b.delivered + b.buffered + avail + rest }
+
+/-- `bufio.Writer.Flush()`. -/
+def Buf.flush (b : Buf) : Buf := { buffered := 0, delivered := b.delivered + b.buffered }
+
+/-- All bytes written to the `bufio.Writer` so far. -/
+def Buf.total (b : Buf) : Nat := b.delivered + b.buffered
+
+/-- The connection between two writes: the writer of the response in progress (`pat = none`: no
+    pattern writer) with its `last` byte, and the shared `bufio.Writer`. -/
+structure Conn where
+  pat : Option Pat
+  last : UInt8
+  buf : Buf
+deriving DecidableEq, Repr
+
+/-- A new connection. -/
+def Conn.fresh : Conn := { pat := none, last := 0, buf := { buffered := 0, delivered := 0 } }
+
+/-- What one write did: was it followed by `Flush()`, and how many bytes of the connection's
+    output has the client side of the socket been given after it. -/
+structure Out where
+  flushed : Bool
+  delivered : Nat
+deriving DecidableEq, Repr
+
+/-- `writeResponse` picks the writer of this response: a new `patternFlushWriter` (or none). -/
+def Conn.begin (c : Conn) (pat : Option Pat) : Conn := { pat := pat, last := 0, buf := c.buf }
+
+/-- One `Write(p)` of `res.Write` to the response's writer. -/
+def Conn.write (size : Nat) (c : Conn) (p : Bytes) : Conn × Out :=
+  let b := c.buf.write size p.length
+  match c.pat with
+  | none => ({ c with buf := b }, { flushed := false, delivered := b.delivered })
+  | some pat =>
+    let s := step pat c.last p
+    let b' := if s.1 then b.flush else b
+    ({ pat := some pat, last := s.2, buf := b' }, { flushed := s.1, delivered := b'.delivered })
+
+def Conn.writes (size : Nat) (c : Conn) : List Bytes → Conn × List Out
+  | [] => (c, [])
+  | p :: ps =>
+    ((c.write size p).1.writes size ps |>.1, (c.write size p).2 :: ((c.write size p).1.writes size ps).2)
+
+/-- `p.brw.Flush()` at the end of `writeResponse`. -/
+def Conn.finish (c : Conn) : Conn × Out :=
+  ({ c with buf := c.buf.flush }, { flushed := true, delivered := c.buf.flush.delivered })
+
+/-- One response as `res.Write` emits it: the writer chosen for it and its writes. -/
+structure Reply where
+  pat : Option Pat
+  writes : List Bytes
+deriving DecidableEq, Repr
+
+/-- One `writeResponse`: one `Out` per write and a last one for the final `Flush()`. -/
+def Conn.reply (size : Nat) (c : Conn) (r : Reply) : Conn × List Out :=
+  let w := (c.begin r.pat).writes size r.writes
+  (w.1.finish.1, w.2 ++ [w.1.finish.2])
+
+/-- The responses of a connection, in order. -/
+def Conn.replies (size : Nat) (c : Conn) : List Reply → List (List Out)
+  | [] => []
+  | r :: rs => (c.reply size r).2 :: (c.reply size r).1.replies size rs
+
+/-- Size of `bufio.NewWriter`'s buffer. -/
+def bufSize : Nat := 4096
+
+/-- One response written on a new connection. -/
+def replyOuts (size : Nat) (r : Reply) : List Out := (Conn.fresh.reply size r).2
+
+/-- The flush decisions of one response seen alone (the final `true` is the end-of-response flush). -/
+def replyFlushes (r : Reply) : List Bool :=
+  (match r.pat with
+   | none => r.writes.map fun _ => false
+   | some pat => flushes pat r.writes) ++ [true]
+
+/-- Number of bytes a response puts on the connection. -/
+def Reply.size (r : Reply) : Nat := r.writes.flatten.length
+
+def repliesSize (rs : List Reply) : Nat := (rs.map Reply.size).sum
+
+def Out.shift (k : Nat) (o : Out) : Out := { o with delivered := o.delivered + k }
+
 end Flush
 end FwdVerif
